@@ -45,10 +45,8 @@ SKIP = {
     'polynomial_testequation_IMEX': 'no solve_system semantics (polynomial in t)', 'ExactDiscontinuousTestODE': 'solve_system returns the exact solution by design, not the implicit equation',
     'fermi_pasta_ulam_tsingou': 'second-order particle problem: no solve_system', 'full_solar_system': 'second-order particle problem: no solve_system',
     'henon_heiles': 'second-order particle problem: no solve_system', 'outer_solar_system': 'second-order particle problem: no solve_system', 'harmonic_oscillator': 'second-order particle problem: no solve_system',
-    'Heat1DChebychev': 'spectral tau method: boundary rows live inside the operator (spectral space); generic free-row selection not available',
-    'Heat1DUltraspherical': 'spectral tau method: boundary rows inside the operator', 'Heat2DUltraspherical': 'spectral tau method: boundary rows inside the operator',
-    'Burgers1D': 'spectral tau method with nonlinear explicit part', 'Burgers2D': 'spectral tau method with nonlinear explicit part',
 }
+SPECTRAL = ('Heat1DChebychev', 'Heat1DUltraspherical', 'Heat2DUltraspherical', 'Burgers1D', 'Burgers2D')
 LINEAR = {'testequation0d', 'test_equation_IMEX', 'heatNd_forced', 'heatNd_unforced', 'advectionNd', 'piline', 'buck_converter', 'acoustic_1d_imex', 'advectiondiffusion1d_imex', 'advectiondiffusion1d_implicit'}
 
 
@@ -291,13 +289,73 @@ def variants(name, cls):
     return out
 
 
+def check_spectral(name, cls, rng):
+    """spectral (tau) classes: solve_system(rhs, dt) must return u with  BC(M + dt*L) u = BC(M rhs)  -- the operator rows on the interior
+    modes, the boundary / constraint rows instead of the highest modes -- for every solver type, whatever was solved before (the classes
+    cache factorisations per dt and evict them), without modifying the arguments. M, L and the boundary-row insertion are the class' own
+    (their contracts are C17's); what is under check here is the solve pipeline: preconditioners, caches, transforms."""
+    fails, cases = [], 0
+    for st_, extra in (('cached_direct', dict(max_cached_factorizations=2)), ('direct', {})):
+        for spectral_space in (True, False):
+            try:
+                P = cls(**dict(PARAMS.get(name, {}), solver_type=st_, spectral_space=spectral_space, **extra))
+            except TypeError:
+                if not spectral_space:
+                    continue  # the class fixes the representation itself
+                try:
+                    P = cls(**dict(PARAMS.get(name, {}), solver_type=st_, **extra))
+                except Exception as e:
+                    return [], 0, f'cannot instantiate: {type(e).__name__}: {str(e)[:80]}'
+            except Exception as e:
+                return [], 0, f'cannot instantiate: {type(e).__name__}: {str(e)[:80]}'
+            spectral_space = bool(P.spectral_space)
+            u0 = P.dtype_u(P.init)
+            u0[...] = np.asarray(P.u_exact(0.0))
+            dts = [1e-2, 0.3, 1e-2, 7e-2, 0.3, 1e-2]  # repeated values: cache hits after evictions
+            for i, dt in enumerate(dts):
+                cases += 1
+                rhs = P.dtype_u(u0)
+                rhs[...] = np.asarray(u0) * (1.0 + 0.1 * i) + 0.01 * rng.randn(*u0.shape) * (1 if spectral_space else 0)
+                rhs_c = np.array(rhs)
+                try:
+                    sol = P.solve_system(rhs, dt, P.dtype_u(u0))
+                except Exception as e:
+                    fails.append(f'[{st_},spectral_space={spectral_space}] solve_system(dt={dt}) raised {type(e).__name__}: {str(e)[:60]}')
+                    continue
+                if not np.array_equal(rhs, rhs_c):
+                    fails.append(f'[{st_},spectral_space={spectral_space}] solve_system(dt={dt}) modified rhs')
+                rhs_hat = rhs_c if spectral_space else np.asarray(P.spectral.transform(rhs))
+                sol_hat = np.asarray(sol) if spectral_space else np.asarray(P.spectral.transform(sol))
+                A = P.spectral.put_BCs_in_matrix(P.M + dt * P.L)
+                b = np.asarray(P.spectral.put_BCs_in_rhs_hat((P.M @ rhs_hat.flatten()).reshape(rhs_hat.shape))).flatten()
+                r = np.asarray(A @ sol_hat.flatten()).flatten() - b
+                rel_ = float(np.max(np.abs(r))) / max(1.0, float(np.max(np.abs(b))))
+                if not rel_ <= 1e-8:
+                    fails.append(f'[{st_},spectral_space={spectral_space}] solve_system(dt={dt}, call {i}): relative defect {rel_:.2e} of BC(M + dt L) u = BC(M rhs)')
+    return fails, cases, None
+
+
 def bounded_problem_contracts(tier, seed):
     warnings.filterwarnings('ignore')
     rng = np.random.RandomState(seed + 21)
     found, failed_imports = discover()
     obs, uncovered, total = [], [], 0
     nvariants = [0]
+    spectral_done = []
     for name, cls in found:
+        if name in SPECTRAL:
+            try:
+                fails, cases, why = check_spectral(name, cls, rng)
+            except Exception as e:
+                fails, cases, why = [], 0, f'harness error {type(e).__name__}: {str(e)[:80]}'
+            total += cases
+            if why:
+                uncovered.append(f'{name}: {why}')
+            else:
+                obs.append(dict(name=f'bounded:{name}:solve_defect', status='proved' if not fails else 'refuted', backend='runtime-contract', seconds=0.0, kind='bounded', size=0,
+                                model=dict(first=fails[:5]) if fails else None, reason='', path=0, counted=False))
+                spectral_done.append(name)
+            continue
         if name in SKIP:
             uncovered.append(f'{name}: {SKIP[name]}')
             continue
@@ -342,7 +400,7 @@ def bounded_problem_contracts(tier, seed):
     return dict(contract='bounded:problem_classes', prop='C12', inst={}, label='bounded', kind='bounded', obligations=obs, canaries=[], paths=1, status='ok',
                 bounded=dict(what='solver contract (defect of the returned solution, arguments untouched, fresh results), eval_f contract, split siblings, closed-form solutions',
                              bound=f'{(len(obs) - 1) // 3} classes (+ {nvariants[0]} variants with one non-default float parameter or a set event time) x factors incl. 0 x 2 times, random admissible states (seeded)', cases=total, failures=sum(1 for o in obs if o['status'] != 'proved'),
-                             covered=sorted(set(o['name'].split(':')[1] for o in obs[:-1])), uncovered=uncovered, not_importable=[f'{a}: {b}' for a, b in failed_imports]))
+                             covered=sorted(set(o['name'].split(':')[1] for o in obs[:-1])), spectral_classes_with_the_tau_contract=spectral_done, uncovered=uncovered, not_importable=[f'{a}: {b}' for a, b in failed_imports]))
 
 
 CONTRACTS = []
